@@ -225,6 +225,9 @@ class Atoms:
 
         self.atom_type_masses = np.array(atom_type_masses, ndmin=1)
         self.positions = np.array(positions, dtype=float, ndmin=1)
+        if self.positions.size == 0:
+            # an atom-less structure still has (N, 3) positions, so that it can be extended / be used to extend
+            self.positions = self.positions.reshape(0, 3)
 
         if cell is not None:
             self.cell = np.array(cell)
@@ -272,10 +275,10 @@ class Atoms:
             self.atom_type_elements = list(dict.fromkeys(elements).keys())
             self.atom_types = np.array([self.atom_type_elements.index(s) for s in elements])
         else:
-            # no atom_type_elements or elements passed
-            # this should be the `Atoms()` case; if not, it will fail the asserts below
-            self.atom_types = np.array([], ndmin=1)
-            self.atom_type_elements = []
+            # no atoms: this should be the `Atoms()` case (possibly with a cell and with type tables); if not, it will
+            # fail the asserts below
+            self.atom_types = np.array([], dtype=int, ndmin=1)
+            self.atom_type_elements = atom_type_elements
 
         # automatically determine masses from elements if masses are not passed
         if len(self.atom_type_masses) == 0 and len(self.atom_type_elements) > 0:
